@@ -314,10 +314,119 @@ package evaluator
 //@ axiom forall L ValArr, k Int, n Int :: {nn(L, k), nn(L, n)} 0 <= k && k < n && L[k] != nil ==> nn(L, k) < nn(L, n)
 //@ axiom forall L ValArr, k Int, n Int :: {nn(L, k), nn(L, n)} k <= n ==> nn(L, k) <= nn(L, n)
 
+//@ ghost sliceNode(n Iface) Bool = isType(n, "*parser.SliceNode") || isType(n, "*parser.SliceCurrentNode") || isType(n, "*parser.SliceStepNode") || isType(n, "*parser.SliceStepCurrentNode")
+//@ func isSliceNode
+//@   tags C01 C12 C17
+//@   ensures result == sliceNode(node)
+
 //@ func evaluator.evaluate
 //@   tags C01
-//@   defines err != nil ==> result == nil
+//@   note a failing evaluate may return a non-nil first result (contains/starts_with/ends_with return false with their error); Search and Expression.Search replace it by nil, which is where C08 is checked
 //@   defines err == nil ==> isEv(e.root, node, current, variables, result)
+//@   ensures[C01 C20] case.And: isType(node, "*parser.AndNode") && err == nil ==> (exists l Val :: isEv(e.root, as(node, "parser.AndNode").Left, current, variables, l) && (!truthy(l) ==> result == l) && (truthy(l) ==> isEv(e.root, as(node, "parser.AndNode").Right, current, variables, result)))
+//@   ensures[C01 C20] case.Or: isType(node, "*parser.OrNode") && err == nil ==> (exists l Val :: isEv(e.root, as(node, "parser.OrNode").Left, current, variables, l) && (truthy(l) ==> result == l) && (!truthy(l) ==> isEv(e.root, as(node, "parser.OrNode").Right, current, variables, result)))
+//@   ensures[C01 C20] case.Not: isType(node, "*parser.NotNode") && err == nil ==> (exists c Val :: isEv(e.root, as(node, "parser.NotNode").Child, current, variables, c) && result == mkBool(!truthy(c)))
+//@   ensures[C01 C20] case.Equal: isType(node, "*parser.EqualNode") && err == nil ==> (exists l Val, r Val :: isEv(e.root, as(node, "parser.EqualNode").Left, current, variables, l) && isEv(e.root, as(node, "parser.EqualNode").Right, current, variables, r) && result == mkBool(specEq(heap, l, r)))
+//@   ensures[C01 C20] case.NotEqual: isType(node, "*parser.NotEqualNode") && err == nil ==> (exists l Val, r Val :: isEv(e.root, as(node, "parser.NotEqualNode").Left, current, variables, l) && isEv(e.root, as(node, "parser.NotEqualNode").Right, current, variables, r) && result == mkBool(!specEq(heap, l, r)))
+//@   ensures[C01 C17] case.ProjectArray: isType(node, "*parser.ProjectArrayNode") && err == nil ==> (exists l Val :: isEv(e.root, as(node, "parser.ProjectArrayNode").Left, current, variables, l) && (!isArr(l) && !(isStr(l) && sliceNode(as(node, "parser.ProjectArrayNode").Left)) ==> result == nil) && (isStr(l) && sliceNode(as(node, "parser.ProjectArrayNode").Left) ==> isEv(e.root, as(node, "parser.ProjectArrayNode").Right, l, variables, result)) && (isArr(l) ==> returns("evaluator.evaluator.projectArray", e, l, as(node, "parser.ProjectArrayNode").Right, variables, result, err)))
+//@   ensures[C01] case.Current: isType(node, "parser.CurrentNode") && err == nil ==> result == current
+//@   ensures[C01] case.Root: isType(node, "parser.RootNode") && err == nil ==> result == e.root
+//@   ensures[C01] case.Null: isType(node, "parser.NullNode") ==> result == nil && err == nil
+//@   ensures[C01 C16] case.String: isType(node, "*parser.StringNode") && err == nil ==> isStr(result) && str(result) == as(node, "parser.StringNode").Value
+//@   ensures[C01 C16] case.Array: isType(node, "*parser.ArrayNode") && err == nil ==> isArr(result) && arr(result) == as(node, "parser.ArrayNode").Value
+//@   ensures[C01 C16] case.Object: isType(node, "*parser.ObjectNode") && err == nil ==> isObj(result) && obj(result) == as(node, "parser.ObjectNode").Value
+//@   ensures[C01 C16 C05] case.Number: isType(node, "*parser.NumberNode") && err == nil ==> isJNum(result) && jnum(result) == as(node, "parser.NumberNode").Value
+//@   ensures[C01] case.AssertNumber: isType(node, "*parser.AssertNumberNode") && err == nil ==> (exists c Val :: isEv(e.root, as(node, "parser.AssertNumberNode").Child, current, variables, c) && (isNum(c) ==> result == c) && (!isNum(c) ==> result == nil))
+//@   ensures[C01 C17] case.SelectArraySingle: isType(node, "*parser.SelectArraySingleNode") && err == nil ==> (exists c Val :: isEv(e.root, as(node, "parser.SelectArraySingleNode").Child, current, variables, c) && (c == nil ==> result == nil) && (c != nil ==> isArr(result) && len(arr(result)) == 1 && isEv(e.root, as(node, "parser.SelectArraySingleNode").Field, c, variables, arr(result)[0])))
+//@   note multi-selects at a null current node: `null | [@]` is [null] in the compliance suite while `null | [@, @]` is null here; C01/C17 speak about non-null current nodes only, so the clauses below do the same
+//@   ensures[C01 C17] case.SelectArraySingleCurrent: isType(node, "*parser.SelectArraySingleCurrentNode") && err == nil ==> (current != nil ==> isArr(result) && len(arr(result)) == 1 && isEv(e.root, as(node, "parser.SelectArraySingleCurrentNode").Field, current, variables, arr(result)[0]))
+//@   ensures[C01 C17] case.SelectObjectSingle: isType(node, "*parser.SelectObjectSingleNode") && err == nil ==> (exists c Val :: isEv(e.root, as(node, "parser.SelectObjectSingleNode").Child, current, variables, c) && (c == nil ==> result == nil) && (c != nil ==> isObj(result) && len(obj(result)) == 1 && has(obj(result), as(node, "parser.SelectObjectSingleNode").Key) && isEv(e.root, as(node, "parser.SelectObjectSingleNode").Field, c, variables, get(obj(result), as(node, "parser.SelectObjectSingleNode").Key))))
+//@   ensures[C01 C17] case.SelectObjectSingleCurrent: isType(node, "*parser.SelectObjectSingleCurrentNode") && err == nil ==> (current != nil ==> isObj(result) && len(obj(result)) == 1 && has(obj(result), as(node, "parser.SelectObjectSingleCurrentNode").Key) && isEv(e.root, as(node, "parser.SelectObjectSingleCurrentNode").Field, current, variables, get(obj(result), as(node, "parser.SelectObjectSingleCurrentNode").Key)))
+//@   ensures[C01 C17] case.SelectArray: isType(node, "*parser.SelectArrayNode") && err == nil ==> (exists c Val :: isEv(e.root, as(node, "parser.SelectArrayNode").Child, current, variables, c) && (c == nil ==> result == nil) && (c != nil ==> isArr(result) && len(arr(result)) == len(as(node, "parser.SelectArrayNode").Fields) && (forall k Int :: 0 <= k && k < len(as(node, "parser.SelectArrayNode").Fields) ==> isEv(e.root, as(node, "parser.SelectArrayNode").Fields[k], c, variables, arr(result)[k]))))
+//@   ensures[C01 C17] case.SelectArrayCurrent: isType(node, "*parser.SelectArrayCurrentNode") && err == nil ==> (current != nil ==> isArr(result) && len(arr(result)) == len(as(node, "parser.SelectArrayCurrentNode").Fields) && (forall k Int :: 0 <= k && k < len(as(node, "parser.SelectArrayCurrentNode").Fields) ==> isEv(e.root, as(node, "parser.SelectArrayCurrentNode").Fields[k], current, variables, arr(result)[k])))
+//@   ensures[C01 C17] case.SelectObject: isType(node, "*parser.SelectObjectNode") && err == nil ==> (exists c Val :: isEv(e.root, as(node, "parser.SelectObjectNode").Child, current, variables, c) && (c == nil ==> result == nil) && (c != nil ==> isObj(result) && (forall k Int :: hasKey(obj(result), k) <==> hasKey(as(node, "parser.SelectObjectNode").Fields, k)) && (forall k Int :: hasKey(as(node, "parser.SelectObjectNode").Fields, k) ==> isEv(e.root, getKey(as(node, "parser.SelectObjectNode").Fields, k), c, variables, getKey(obj(result), k)))))
+//@   ensures[C01 C17] case.SelectObjectCurrent: isType(node, "*parser.SelectObjectCurrentNode") && err == nil ==> (current != nil ==> isObj(result) && (forall k Int :: hasKey(obj(result), k) <==> hasKey(as(node, "parser.SelectObjectCurrentNode").Fields, k)) && (forall k Int :: hasKey(as(node, "parser.SelectObjectCurrentNode").Fields, k) ==> isEv(e.root, getKey(as(node, "parser.SelectObjectCurrentNode").Fields, k), current, variables, getKey(obj(result), k))))
+//@   ensures[C01 C19] case.Let: isType(node, "*parser.DefineVariables") && err == nil ==> (exists s Int :: s != nil && sparent(heap, s) == variables && (forall k Int :: hasKey(as(node, "parser.DefineVariables").Variables, k) <==> mhasKey(heap, svars(heap, s), k)) && (forall k Int :: hasKey(as(node, "parser.DefineVariables").Variables, k) ==> isEv(e.root, getKey(as(node, "parser.DefineVariables").Variables, k), current, variables, mgetKey(heap, svars(heap, s), k))) && isEv(e.root, as(node, "parser.DefineVariables").Child, current, s, result))
+//@   ensures[C01 C19] case.Variable: isType(node, "*parser.VariableNode") ==> (lookupOk(heap, variables, key(as(node, "parser.VariableNode").Name)) ==> err == nil && result == lookupVal(heap, variables, key(as(node, "parser.VariableNode").Name))) && (!lookupOk(heap, variables, key(as(node, "parser.VariableNode").Name)) ==> isType(err, "*github.com/woodsbury/jmespath/internal/evaluator.UndefinedVariableError"))
+//@   ensures[C02] case.Abs: isType(node, "*parser.AbsNode") && err == nil ==> (exists a_arg Val :: isEv(e.root, as(node, "parser.AbsNode").Argument, current, variables, a_arg) && returns("evaluator.abs", a_arg, result, err))
+//@   ensures[C05] case.Add: isType(node, "*parser.AddNode") && err == nil ==> (exists a_left Val, a_right Val :: isEv(e.root, as(node, "parser.AddNode").Left, current, variables, a_left) && isEv(e.root, as(node, "parser.AddNode").Right, current, variables, a_right) && returns("evaluator.add", a_left, a_right, result, err))
+//@   ensures[C02] case.Avg: isType(node, "*parser.AvgNode") && err == nil ==> (exists a_arg Val :: isEv(e.root, as(node, "parser.AvgNode").Argument, current, variables, a_arg) && returns("evaluator.avg", a_arg, result, err))
+//@   ensures[C02] case.Ceil: isType(node, "*parser.CeilNode") && err == nil ==> (exists a_arg Val :: isEv(e.root, as(node, "parser.CeilNode").Argument, current, variables, a_arg) && returns("evaluator.ceil", a_arg, result, err))
+//@   ensures[C02] case.Contains: isType(node, "*parser.ContainsNode") && err == nil ==> (exists a_arg1 Val, a_arg2 Val :: isEv(e.root, as(node, "parser.ContainsNode").Arguments[0], current, variables, a_arg1) && isEv(e.root, as(node, "parser.ContainsNode").Arguments[1], current, variables, a_arg2) && returns("evaluator.contains", a_arg1, a_arg2, boolv(result), err) && isBool(result))
+//@   ensures[C05] case.Divide: isType(node, "*parser.DivideNode") && err == nil ==> (exists a_left Val, a_right Val :: isEv(e.root, as(node, "parser.DivideNode").Left, current, variables, a_left) && isEv(e.root, as(node, "parser.DivideNode").Right, current, variables, a_right) && returns("evaluator.divide", a_left, a_right, result, err))
+//@   ensures[C02] case.EndsWith: isType(node, "*parser.EndsWithNode") && err == nil ==> (exists a_arg1 Val, a_arg2 Val :: isEv(e.root, as(node, "parser.EndsWithNode").Arguments[0], current, variables, a_arg1) && isEv(e.root, as(node, "parser.EndsWithNode").Arguments[1], current, variables, a_arg2) && returns("evaluator.endsWith", a_arg1, a_arg2, result, err))
+//@   ensures[C01] case.Field: isType(node, "*parser.FieldNode") && err == nil ==> returns("evaluator.field", as(node, "parser.FieldNode").Value, current, result)
+//@   ensures[C01 C17] case.Filter: isType(node, "*parser.FilterNode") && err == nil ==> (exists a_child Val :: isEv(e.root, as(node, "parser.FilterNode").Child, current, variables, a_child) && returns("evaluator.evaluator.filter", e, a_child, as(node, "parser.FilterNode").Filter, variables, result, err))
+//@   ensures[C01 C17] case.FilterAndProject: isType(node, "*parser.FilterAndProjectNode") && err == nil ==> (exists a_left Val :: isEv(e.root, as(node, "parser.FilterAndProjectNode").Left, current, variables, a_left) && returns("evaluator.evaluator.filterAndProjectArray", e, a_left, as(node, "parser.FilterAndProjectNode").Filter, as(node, "parser.FilterAndProjectNode").Right, variables, result, err))
+//@   ensures[C01 C17] case.FilterAndProjectCurrent: isType(node, "*parser.FilterAndProjectCurrentNode") && err == nil ==> returns("evaluator.evaluator.filterAndProjectArray", e, current, as(node, "parser.FilterAndProjectCurrentNode").Filter, as(node, "parser.FilterAndProjectCurrentNode").Child, variables, result, err)
+//@   ensures[C01 C17] case.FilterCurrent: isType(node, "*parser.FilterCurrentNode") && err == nil ==> returns("evaluator.evaluator.filter", e, current, as(node, "parser.FilterCurrentNode").Filter, variables, result, err)
+//@   ensures[C02] case.FindFirst: isType(node, "*parser.FindFirstNode") && err == nil ==> (exists a_arg1 Val, a_arg2 Val :: isEv(e.root, as(node, "parser.FindFirstNode").Arguments[0], current, variables, a_arg1) && isEv(e.root, as(node, "parser.FindFirstNode").Arguments[1], current, variables, a_arg2) && returns("evaluator.findFirst", a_arg1, a_arg2, result, err))
+//@   ensures[C02] case.FindFirstBetween: isType(node, "*parser.FindFirstBetweenNode") && err == nil ==> (exists a_arg1 Val, a_arg2 Val, a_arg3 Val, a_arg4 Val :: isEv(e.root, as(node, "parser.FindFirstBetweenNode").Arguments[0], current, variables, a_arg1) && isEv(e.root, as(node, "parser.FindFirstBetweenNode").Arguments[1], current, variables, a_arg2) && isEv(e.root, as(node, "parser.FindFirstBetweenNode").Arguments[2], current, variables, a_arg3) && isEv(e.root, as(node, "parser.FindFirstBetweenNode").Arguments[3], current, variables, a_arg4) && returns("evaluator.findFirstBetween", a_arg1, a_arg2, a_arg3, a_arg4, result, err))
+//@   ensures[C02] case.FindFirstFrom: isType(node, "*parser.FindFirstFromNode") && err == nil ==> (exists a_arg1 Val, a_arg2 Val, a_arg3 Val :: isEv(e.root, as(node, "parser.FindFirstFromNode").Arguments[0], current, variables, a_arg1) && isEv(e.root, as(node, "parser.FindFirstFromNode").Arguments[1], current, variables, a_arg2) && isEv(e.root, as(node, "parser.FindFirstFromNode").Arguments[2], current, variables, a_arg3) && returns("evaluator.findFirstFrom", a_arg1, a_arg2, a_arg3, result, err))
+//@   ensures[C02] case.FindLast: isType(node, "*parser.FindLastNode") && err == nil ==> (exists a_arg1 Val, a_arg2 Val :: isEv(e.root, as(node, "parser.FindLastNode").Arguments[0], current, variables, a_arg1) && isEv(e.root, as(node, "parser.FindLastNode").Arguments[1], current, variables, a_arg2) && returns("evaluator.findLast", a_arg1, a_arg2, result, err))
+//@   ensures[C02] case.FindLastBetween: isType(node, "*parser.FindLastBetweenNode") && err == nil ==> (exists a_arg1 Val, a_arg2 Val, a_arg3 Val, a_arg4 Val :: isEv(e.root, as(node, "parser.FindLastBetweenNode").Arguments[0], current, variables, a_arg1) && isEv(e.root, as(node, "parser.FindLastBetweenNode").Arguments[1], current, variables, a_arg2) && isEv(e.root, as(node, "parser.FindLastBetweenNode").Arguments[2], current, variables, a_arg3) && isEv(e.root, as(node, "parser.FindLastBetweenNode").Arguments[3], current, variables, a_arg4) && returns("evaluator.findLastBetween", a_arg1, a_arg2, a_arg3, a_arg4, result, err))
+//@   ensures[C02] case.FindLastFrom: isType(node, "*parser.FindLastFromNode") && err == nil ==> (exists a_arg1 Val, a_arg2 Val, a_arg3 Val :: isEv(e.root, as(node, "parser.FindLastFromNode").Arguments[0], current, variables, a_arg1) && isEv(e.root, as(node, "parser.FindLastFromNode").Arguments[1], current, variables, a_arg2) && isEv(e.root, as(node, "parser.FindLastFromNode").Arguments[2], current, variables, a_arg3) && returns("evaluator.findLastFrom", a_arg1, a_arg2, a_arg3, result, err))
+//@   ensures[C01 C17] case.Flatten: isType(node, "*parser.FlattenNode") && err == nil ==> (exists a_child Val :: isEv(e.root, as(node, "parser.FlattenNode").Child, current, variables, a_child) && returns("evaluator.flatten", a_child, result))
+//@   ensures[C01 C17] case.FlattenAndProject: isType(node, "*parser.FlattenAndProjectNode") && err == nil ==> (exists a_left Val :: isEv(e.root, as(node, "parser.FlattenAndProjectNode").Left, current, variables, a_left) && returns("evaluator.evaluator.flattenAndProjectArray", e, a_left, as(node, "parser.FlattenAndProjectNode").Right, variables, result, err))
+//@   ensures[C01 C17] case.FlattenAndProjectCurrent: isType(node, "*parser.FlattenAndProjectCurrentNode") && err == nil ==> returns("evaluator.evaluator.flattenAndProjectArray", e, current, as(node, "parser.FlattenAndProjectCurrentNode").Child, variables, result, err)
+//@   ensures[C02] case.Floor: isType(node, "*parser.FloorNode") && err == nil ==> (exists a_arg Val :: isEv(e.root, as(node, "parser.FloorNode").Argument, current, variables, a_arg) && returns("evaluator.floor", a_arg, result, err))
+//@   ensures[C02] case.FromItems: isType(node, "*parser.FromItemsNode") && err == nil ==> (exists a_arg Val :: isEv(e.root, as(node, "parser.FromItemsNode").Argument, current, variables, a_arg) && returns("evaluator.fromItems", a_arg, result, err))
+//@   ensures[C01 C14] case.Greater: isType(node, "*parser.GreaterNode") && err == nil ==> (exists a_left Val, a_right Val :: isEv(e.root, as(node, "parser.GreaterNode").Left, current, variables, a_left) && isEv(e.root, as(node, "parser.GreaterNode").Right, current, variables, a_right) && returns("evaluator.greater", a_left, a_right, result))
+//@   ensures[C01 C14] case.GreaterOrEqual: isType(node, "*parser.GreaterOrEqualNode") && err == nil ==> (exists a_left Val, a_right Val :: isEv(e.root, as(node, "parser.GreaterOrEqualNode").Left, current, variables, a_left) && isEv(e.root, as(node, "parser.GreaterOrEqualNode").Right, current, variables, a_right) && returns("evaluator.greaterOrEqual", a_left, a_right, result))
+//@   ensures[C02] case.GroupBy: isType(node, "*parser.GroupByNode") && err == nil ==> (exists a_arg1 Val :: isEv(e.root, as(node, "parser.GroupByNode").Arguments[0], current, variables, a_arg1) && returns("evaluator.evaluator.groupBy", e, a_arg1, as(node, "parser.GroupByNode").Arguments[1], variables, result, err))
+//@   ensures[C01] case.Index: isType(node, "*parser.IndexNode") && err == nil ==> (exists a_child Val :: isEv(e.root, as(node, "parser.IndexNode").Child, current, variables, a_child) && returns("evaluator.index", a_child, as(node, "parser.IndexNode").Value, result))
+//@   ensures[C01] case.IndexCurrent: isType(node, "*parser.IndexCurrentNode") && err == nil ==> returns("evaluator.index", current, as(node, "parser.IndexCurrentNode").Value, result)
+//@   ensures[C05] case.IntegerDivide: isType(node, "*parser.IntegerDivideNode") && err == nil ==> (exists a_left Val, a_right Val :: isEv(e.root, as(node, "parser.IntegerDivideNode").Left, current, variables, a_left) && isEv(e.root, as(node, "parser.IntegerDivideNode").Right, current, variables, a_right) && returns("evaluator.integerDivide", a_left, a_right, result, err))
+//@   ensures[C02] case.Items: isType(node, "*parser.ItemsNode") && err == nil ==> (exists a_arg Val :: isEv(e.root, as(node, "parser.ItemsNode").Argument, current, variables, a_arg) && returns("evaluator.items", a_arg, result, err))
+//@   ensures[C02] case.Join: isType(node, "*parser.JoinNode") && err == nil ==> (exists a_arg1 Val, a_arg2 Val :: isEv(e.root, as(node, "parser.JoinNode").Arguments[0], current, variables, a_arg1) && isEv(e.root, as(node, "parser.JoinNode").Arguments[1], current, variables, a_arg2) && returns("evaluator.join", a_arg1, a_arg2, result, err))
+//@   ensures[C02] case.Keys: isType(node, "*parser.KeysNode") && err == nil ==> (exists a_arg Val :: isEv(e.root, as(node, "parser.KeysNode").Argument, current, variables, a_arg) && returns("evaluator.keys", a_arg, result, err))
+//@   ensures[C02] case.Length: isType(node, "*parser.LengthNode") && err == nil ==> (exists a_arg Val :: isEv(e.root, as(node, "parser.LengthNode").Argument, current, variables, a_arg) && returns("evaluator.length", a_arg, result, err))
+//@   ensures[C01 C14] case.Less: isType(node, "*parser.LessNode") && err == nil ==> (exists a_left Val, a_right Val :: isEv(e.root, as(node, "parser.LessNode").Left, current, variables, a_left) && isEv(e.root, as(node, "parser.LessNode").Right, current, variables, a_right) && returns("evaluator.less", a_left, a_right, result))
+//@   ensures[C01 C14] case.LessOrEqual: isType(node, "*parser.LessOrEqualNode") && err == nil ==> (exists a_left Val, a_right Val :: isEv(e.root, as(node, "parser.LessOrEqualNode").Left, current, variables, a_left) && isEv(e.root, as(node, "parser.LessOrEqualNode").Right, current, variables, a_right) && returns("evaluator.lessOrEqual", a_left, a_right, result))
+//@   ensures[C02] case.Lower: isType(node, "*parser.LowerNode") && err == nil ==> (exists a_arg Val :: isEv(e.root, as(node, "parser.LowerNode").Argument, current, variables, a_arg) && returns("evaluator.lower", a_arg, result, err))
+//@   ensures[C02 C17] case.Map: isType(node, "*parser.MapNode") && err == nil ==> (exists a_arg2 Val :: isEv(e.root, as(node, "parser.MapNode").Arguments[1], current, variables, a_arg2) && returns("evaluator.evaluator.mapArray", e, a_arg2, as(node, "parser.MapNode").Arguments[0], variables, result, err))
+//@   ensures[C02 C13] case.Max: isType(node, "*parser.MaxNode") && err == nil ==> (exists a_arg Val :: isEv(e.root, as(node, "parser.MaxNode").Argument, current, variables, a_arg) && returns("evaluator.arrayMax", a_arg, result, err))
+//@   ensures[C02 C13] case.MaxBy: isType(node, "*parser.MaxByNode") && err == nil ==> (exists a_arg1 Val :: isEv(e.root, as(node, "parser.MaxByNode").Arguments[0], current, variables, a_arg1) && returns("evaluator.evaluator.arrayMaxBy", e, a_arg1, as(node, "parser.MaxByNode").Arguments[1], variables, result, err))
+//@   ensures[C02 C13] case.Min: isType(node, "*parser.MinNode") && err == nil ==> (exists a_arg Val :: isEv(e.root, as(node, "parser.MinNode").Argument, current, variables, a_arg) && returns("evaluator.arrayMin", a_arg, result, err))
+//@   ensures[C02 C13] case.MinBy: isType(node, "*parser.MinByNode") && err == nil ==> (exists a_arg1 Val :: isEv(e.root, as(node, "parser.MinByNode").Arguments[0], current, variables, a_arg1) && returns("evaluator.evaluator.arrayMinBy", e, a_arg1, as(node, "parser.MinByNode").Arguments[1], variables, result, err))
+//@   ensures[C05] case.Modulo: isType(node, "*parser.ModuloNode") && err == nil ==> (exists a_left Val, a_right Val :: isEv(e.root, as(node, "parser.ModuloNode").Left, current, variables, a_left) && isEv(e.root, as(node, "parser.ModuloNode").Right, current, variables, a_right) && returns("evaluator.modulo", a_left, a_right, result, err))
+//@   ensures[C05] case.Multiply: isType(node, "*parser.MultiplyNode") && err == nil ==> (exists a_left Val, a_right Val :: isEv(e.root, as(node, "parser.MultiplyNode").Left, current, variables, a_left) && isEv(e.root, as(node, "parser.MultiplyNode").Right, current, variables, a_right) && returns("evaluator.multiply", a_left, a_right, result, err))
+//@   ensures[C01] case.ObjectValues: isType(node, "*parser.ObjectValuesNode") && err == nil ==> (exists a_child Val :: isEv(e.root, as(node, "parser.ObjectValuesNode").Child, current, variables, a_child) && returns("evaluator.objectValues", a_child, result))
+//@   ensures[C02] case.PadLeft: isType(node, "*parser.PadLeftNode") && err == nil ==> (exists a_arg1 Val, a_arg2 Val, a_arg3 Val :: isEv(e.root, as(node, "parser.PadLeftNode").Arguments[0], current, variables, a_arg1) && isEv(e.root, as(node, "parser.PadLeftNode").Arguments[1], current, variables, a_arg2) && isEv(e.root, as(node, "parser.PadLeftNode").Arguments[2], current, variables, a_arg3) && returns("evaluator.padLeft", a_arg1, a_arg2, a_arg3, result, err))
+//@   ensures[C02] case.PadRight: isType(node, "*parser.PadRightNode") && err == nil ==> (exists a_arg1 Val, a_arg2 Val, a_arg3 Val :: isEv(e.root, as(node, "parser.PadRightNode").Arguments[0], current, variables, a_arg1) && isEv(e.root, as(node, "parser.PadRightNode").Arguments[1], current, variables, a_arg2) && isEv(e.root, as(node, "parser.PadRightNode").Arguments[2], current, variables, a_arg3) && returns("evaluator.padRight", a_arg1, a_arg2, a_arg3, result, err))
+//@   ensures[C02] case.PadSpaceLeft: isType(node, "*parser.PadSpaceLeftNode") && err == nil ==> (exists a_arg1 Val, a_arg2 Val :: isEv(e.root, as(node, "parser.PadSpaceLeftNode").Arguments[0], current, variables, a_arg1) && isEv(e.root, as(node, "parser.PadSpaceLeftNode").Arguments[1], current, variables, a_arg2) && returns("evaluator.padSpaceLeft", a_arg1, a_arg2, result, err))
+//@   ensures[C02] case.PadSpaceRight: isType(node, "*parser.PadSpaceRightNode") && err == nil ==> (exists a_arg1 Val, a_arg2 Val :: isEv(e.root, as(node, "parser.PadSpaceRightNode").Arguments[0], current, variables, a_arg1) && isEv(e.root, as(node, "parser.PadSpaceRightNode").Arguments[1], current, variables, a_arg2) && returns("evaluator.padSpaceRight", a_arg1, a_arg2, result, err))
+//@   ensures[C01 C17 C18] case.Pipe: isType(node, "*parser.PipeNode") && err == nil ==> (exists a_left Val :: isEv(e.root, as(node, "parser.PipeNode").Left, current, variables, a_left) && returns("evaluator.evaluator.evaluate", e, as(node, "parser.PipeNode").Right, a_left, variables, result, err))
+//@   ensures[C01 C17] case.ProjectArrayCurrent: isType(node, "*parser.ProjectArrayCurrentNode") && err == nil ==> returns("evaluator.evaluator.projectArray", e, current, as(node, "parser.ProjectArrayCurrentNode").Child, variables, result, err)
+//@   ensures[C01] case.ProjectObject: isType(node, "*parser.ProjectObjectNode") && err == nil ==> (exists a_left Val :: isEv(e.root, as(node, "parser.ProjectObjectNode").Left, current, variables, a_left) && returns("evaluator.evaluator.projectObject", e, a_left, as(node, "parser.ProjectObjectNode").Right, variables, result, err))
+//@   ensures[C01] case.ProjectObjectCurrent: isType(node, "*parser.ProjectObjectCurrentNode") && err == nil ==> returns("evaluator.evaluator.projectObject", e, current, as(node, "parser.ProjectObjectCurrentNode").Child, variables, result, err)
+//@   ensures[C01] case.PruneArray: isType(node, "*parser.PruneArrayNode") && err == nil ==> (exists a_child Val :: isEv(e.root, as(node, "parser.PruneArrayNode").Child, current, variables, a_child) && returns("evaluator.pruneArray", a_child, result))
+//@   ensures[C02] case.Replace: isType(node, "*parser.ReplaceNode") && err == nil ==> (exists a_arg1 Val, a_arg2 Val, a_arg3 Val :: isEv(e.root, as(node, "parser.ReplaceNode").Arguments[0], current, variables, a_arg1) && isEv(e.root, as(node, "parser.ReplaceNode").Arguments[1], current, variables, a_arg2) && isEv(e.root, as(node, "parser.ReplaceNode").Arguments[2], current, variables, a_arg3) && returns("evaluator.replace", a_arg1, a_arg2, a_arg3, result, err))
+//@   ensures[C02] case.ReplaceCount: isType(node, "*parser.ReplaceCountNode") && err == nil ==> (exists a_arg1 Val, a_arg2 Val, a_arg3 Val, a_arg4 Val :: isEv(e.root, as(node, "parser.ReplaceCountNode").Arguments[0], current, variables, a_arg1) && isEv(e.root, as(node, "parser.ReplaceCountNode").Arguments[1], current, variables, a_arg2) && isEv(e.root, as(node, "parser.ReplaceCountNode").Arguments[2], current, variables, a_arg3) && isEv(e.root, as(node, "parser.ReplaceCountNode").Arguments[3], current, variables, a_arg4) && returns("evaluator.replaceCount", a_arg1, a_arg2, a_arg3, a_arg4, result, err))
+//@   ensures[C02] case.Reverse: isType(node, "*parser.ReverseNode") && err == nil ==> (exists a_arg Val :: isEv(e.root, as(node, "parser.ReverseNode").Argument, current, variables, a_arg) && returns("evaluator.reverse", a_arg, result, err))
+//@   ensures[C01 C12] case.Slice: isType(node, "*parser.SliceNode") && err == nil ==> (exists a_child Val :: isEv(e.root, as(node, "parser.SliceNode").Child, current, variables, a_child) && returns("evaluator.slice", a_child, as(node, "parser.SliceNode").Start, as(node, "parser.SliceNode").Stop, result))
+//@   ensures[C01 C12] case.SliceCurrent: isType(node, "*parser.SliceCurrentNode") && err == nil ==> returns("evaluator.slice", current, as(node, "parser.SliceCurrentNode").Start, as(node, "parser.SliceCurrentNode").Stop, result)
+//@   ensures[C01 C12] case.SliceStep: isType(node, "*parser.SliceStepNode") && err == nil ==> (exists a_child Val :: isEv(e.root, as(node, "parser.SliceStepNode").Child, current, variables, a_child) && returns("evaluator.sliceStep", a_child, as(node, "parser.SliceStepNode").Start, as(node, "parser.SliceStepNode").Stop, as(node, "parser.SliceStepNode").Step, result))
+//@   ensures[C01 C12] case.SliceStepCurrent: isType(node, "*parser.SliceStepCurrentNode") && err == nil ==> returns("evaluator.sliceStep", current, as(node, "parser.SliceStepCurrentNode").Start, as(node, "parser.SliceStepCurrentNode").Stop, as(node, "parser.SliceStepCurrentNode").Step, result)
+//@   ensures[C02 C13] case.Sort: isType(node, "*parser.SortNode") && err == nil ==> (exists a_arg Val :: isEv(e.root, as(node, "parser.SortNode").Argument, current, variables, a_arg) && returns("evaluator.sortArray", a_arg, result, err))
+//@   ensures[C02 C13] case.SortBy: isType(node, "*parser.SortByNode") && err == nil ==> (exists a_arg1 Val :: isEv(e.root, as(node, "parser.SortByNode").Arguments[0], current, variables, a_arg1) && returns("evaluator.evaluator.sortArrayBy", e, a_arg1, as(node, "parser.SortByNode").Arguments[1], variables, result, err))
+//@   ensures[C02] case.Split: isType(node, "*parser.SplitNode") && err == nil ==> (exists a_arg1 Val, a_arg2 Val :: isEv(e.root, as(node, "parser.SplitNode").Arguments[0], current, variables, a_arg1) && isEv(e.root, as(node, "parser.SplitNode").Arguments[1], current, variables, a_arg2) && returns("evaluator.split", a_arg1, a_arg2, result, err))
+//@   ensures[C02] case.SplitCount: isType(node, "*parser.SplitCountNode") && err == nil ==> (exists a_arg1 Val, a_arg2 Val, a_arg3 Val :: isEv(e.root, as(node, "parser.SplitCountNode").Arguments[0], current, variables, a_arg1) && isEv(e.root, as(node, "parser.SplitCountNode").Arguments[1], current, variables, a_arg2) && isEv(e.root, as(node, "parser.SplitCountNode").Arguments[2], current, variables, a_arg3) && returns("evaluator.splitCount", a_arg1, a_arg2, a_arg3, result, err))
+//@   ensures[C02] case.StartsWith: isType(node, "*parser.StartsWithNode") && err == nil ==> (exists a_arg1 Val, a_arg2 Val :: isEv(e.root, as(node, "parser.StartsWithNode").Arguments[0], current, variables, a_arg1) && isEv(e.root, as(node, "parser.StartsWithNode").Arguments[1], current, variables, a_arg2) && returns("evaluator.startsWith", a_arg1, a_arg2, result, err))
+//@   ensures[C05] case.Subtract: isType(node, "*parser.SubtractNode") && err == nil ==> (exists a_left Val, a_right Val :: isEv(e.root, as(node, "parser.SubtractNode").Left, current, variables, a_left) && isEv(e.root, as(node, "parser.SubtractNode").Right, current, variables, a_right) && returns("evaluator.subtract", a_left, a_right, result, err))
+//@   ensures[C02] case.Sum: isType(node, "*parser.SumNode") && err == nil ==> (exists a_arg Val :: isEv(e.root, as(node, "parser.SumNode").Argument, current, variables, a_arg) && returns("evaluator.sum", a_arg, result, err))
+//@   ensures[C02] case.ToArray: isType(node, "*parser.ToArrayNode") && err == nil ==> (exists a_arg Val :: isEv(e.root, as(node, "parser.ToArrayNode").Argument, current, variables, a_arg) && returns("evaluator.toArray", a_arg, result))
+//@   ensures[C02] case.ToNumber: isType(node, "*parser.ToNumberNode") && err == nil ==> (exists a_arg Val :: isEv(e.root, as(node, "parser.ToNumberNode").Argument, current, variables, a_arg) && returns("evaluator.toNumber", a_arg, result))
+//@   ensures[C02] case.ToString: isType(node, "*parser.ToStringNode") && err == nil ==> (exists a_arg Val :: isEv(e.root, as(node, "parser.ToStringNode").Argument, current, variables, a_arg) && returns("evaluator.toString", a_arg, result, err))
+//@   ensures[C02] case.Trim: isType(node, "*parser.TrimNode") && err == nil ==> (exists a_arg1 Val, a_arg2 Val :: isEv(e.root, as(node, "parser.TrimNode").Arguments[0], current, variables, a_arg1) && isEv(e.root, as(node, "parser.TrimNode").Arguments[1], current, variables, a_arg2) && returns("evaluator.trim", a_arg1, a_arg2, result, err))
+//@   ensures[C02] case.TrimLeft: isType(node, "*parser.TrimLeftNode") && err == nil ==> (exists a_arg1 Val, a_arg2 Val :: isEv(e.root, as(node, "parser.TrimLeftNode").Arguments[0], current, variables, a_arg1) && isEv(e.root, as(node, "parser.TrimLeftNode").Arguments[1], current, variables, a_arg2) && returns("evaluator.trimLeft", a_arg1, a_arg2, result, err))
+//@   ensures[C02] case.TrimRight: isType(node, "*parser.TrimRightNode") && err == nil ==> (exists a_arg1 Val, a_arg2 Val :: isEv(e.root, as(node, "parser.TrimRightNode").Arguments[0], current, variables, a_arg1) && isEv(e.root, as(node, "parser.TrimRightNode").Arguments[1], current, variables, a_arg2) && returns("evaluator.trimRight", a_arg1, a_arg2, result, err))
+//@   ensures[C02] case.TrimSpace: isType(node, "*parser.TrimSpaceNode") && err == nil ==> (exists a_arg Val :: isEv(e.root, as(node, "parser.TrimSpaceNode").Argument, current, variables, a_arg) && returns("evaluator.trimSpace", a_arg, result, err))
+//@   ensures[C02] case.TrimSpaceLeft: isType(node, "*parser.TrimSpaceLeftNode") && err == nil ==> (exists a_arg Val :: isEv(e.root, as(node, "parser.TrimSpaceLeftNode").Argument, current, variables, a_arg) && returns("evaluator.trimSpaceLeft", a_arg, result, err))
+//@   ensures[C02] case.TrimSpaceRight: isType(node, "*parser.TrimSpaceRightNode") && err == nil ==> (exists a_arg Val :: isEv(e.root, as(node, "parser.TrimSpaceRightNode").Argument, current, variables, a_arg) && returns("evaluator.trimSpaceRight", a_arg, result, err))
+//@   ensures[C02] case.Type: isType(node, "*parser.TypeNode") && err == nil ==> (exists a_arg Val :: isEv(e.root, as(node, "parser.TypeNode").Argument, current, variables, a_arg) && returns("evaluator.typeName", a_arg, result, err))
+//@   ensures[C02] case.Upper: isType(node, "*parser.UpperNode") && err == nil ==> (exists a_arg Val :: isEv(e.root, as(node, "parser.UpperNode").Argument, current, variables, a_arg) && returns("evaluator.upper", a_arg, result, err))
+//@   ensures[C02] case.Values: isType(node, "*parser.ValuesNode") && err == nil ==> (exists a_arg Val :: isEv(e.root, as(node, "parser.ValuesNode").Argument, current, variables, a_arg) && returns("evaluator.values", a_arg, result, err))
 
 //@ func evaluator.projectArray
 //@   tags C01 C17 C19 C15 C18 C03 C06
@@ -469,16 +578,26 @@ package evaluator
 //@ func evaluator.evaluate
 //@   tags C03 C06 C09
 //@   requires node.nonnil: node != nil
+//@   loop 1
+//@     invariant fresh(results) && results != nil
+//@     invariant[C19 C01] forall k Int :: {it_seen[k]} it_seen[k] ==> mhasKey(heap, results, k) && isEv(e.root, getKey(as(node0, "parser.DefineVariables").Variables, k), current, variables, mgetKey(heap, results, k))
+//@     invariant[C19 C01] forall k Int :: {mhasKey(heap, results, k)} mhasKey(heap, results, k) ==> it_seen[k]
 //@   loop 4
 //@     invariant true
 //@   loop 5
 //@     invariant len(results) == len(node.Fields) && fresh(results)
+//@     invariant[C01 C17] forall k Int :: 0 <= k && k < iter ==> isEv(e.root, node.Fields[k], child, variables, results[k])
 //@   loop 6
 //@     invariant len(results) == len(node.Fields) && fresh(results)
+//@     invariant[C01 C17] forall k Int :: 0 <= k && k < iter ==> isEv(e.root, node.Fields[k], current, variables, results[k])
 //@   loop 7
 //@     invariant fresh(results) && results != nil
+//@     invariant[C01 C17] forall k Int :: {it_seen[k]} it_seen[k] ==> mhasKey(heap, results, k) && isEv(e.root, getKey(node.Fields, k), child, variables, mgetKey(heap, results, k))
+//@     invariant[C01 C17] forall k Int :: {mhasKey(heap, results, k)} mhasKey(heap, results, k) ==> it_seen[k]
 //@   loop 8
 //@     invariant fresh(results) && results != nil
+//@     invariant[C01 C17] forall k Int :: {it_seen[k]} it_seen[k] ==> mhasKey(heap, results, k) && isEv(e.root, getKey(node.Fields, k), current, variables, mgetKey(heap, results, k))
+//@     invariant[C01 C17] forall k Int :: {mhasKey(heap, results, k)} mhasKey(heap, results, k) ==> it_seen[k]
 //@   loop 9
 //@     invariant len(values) == len(node.Arguments) && fresh(values) && 0 <= count && (iter >= 1 ==> count <= MaxAlloc)
 //@     invariant forall k Int :: 0 <= k && k < iter ==> count <= len(values[k])
@@ -492,7 +611,6 @@ package evaluator
 //@ func Evaluate
 //@   tags C03 C06
 //@   requires node != nil
-//@   ensures result1 != nil ==> result0 == nil
 
 //@ func evaluator.projectArray
 //@   requires node != nil
